@@ -79,11 +79,11 @@ def h05a_encode(L):
     assert is_iwa_file(out)
 
 
-def h05b_decode(n1, n2, n3, k, ok1, ok2, ok3):
+def h05b_decode(n1, n2, n3, n4, k, ok1, ok2, ok3, ok4):
     """decoding k frames yields the concatenation of the per-frame data wherever the stream was cut into frames"""
     del CALLS[:]
-    ns = [n1, n2, n3][:k]
-    oks = [ok1, ok2, ok3][:k]
+    ns = [n1, n2, n3, n4][:k]
+    oks = [ok1, ok2, ok3, ok4][:k]
     for n in ns:
         assume(n >= 1)
     frames = b""
@@ -122,9 +122,9 @@ HARNESSES = [
                    "are all inside the range",
             stubs=STUBS, outside=OUT, patches=[(iwamod, "snappy", FakeSnappy)]),
     Harness("H05b", h05b_decode,
-            dict(n1=IntDom(0, 2 ** 24 - 1), n2=IntDom(0, 2 ** 24 - 1), n3=IntDom(0, 2 ** 24 - 1), k=Cases([0, 1, 2, 3]),
-                 ok1=BoolDom(), ok2=BoolDom(), ok3=BoolDom()),
-            bounds="0..3 frames with symbolic payload lengths in [1, 2^24); each payload either a snappy block or stored as is",
+            lambda tier: dict(n1=IntDom(0, 2 ** 24 - 1), n2=IntDom(0, 2 ** 24 - 1), n3=IntDom(0, 2 ** 24 - 1), n4=IntDom(0, 2 ** 24 - 1),
+                              k=Cases([0, 1, 2, 3] if tier == "quick" else [0, 1, 2, 3, 4]), ok1=BoolDom(), ok2=BoolDom(), ok3=BoolDom(), ok4=BoolDom()),
+            bounds="0..3 (quick) / 0..4 (thorough) frames with symbolic payload lengths in [1, 2^24); each payload either a snappy block or stored as is",
             stubs=STUBS, outside=OUT, patches=[(iwamod, "snappy", FakeSnappy)]),
     Harness("H05b-sniff", h05b_sniff, dict(n1=IntDom(0, 2 ** 24 - 1), extra=BoolDom()),
             bounds="one frame of symbolic length, optionally followed by 4 bytes that are not a frame", stubs=STUBS[:1]),
